@@ -674,6 +674,10 @@ int check_main(int argc, char **argv, Engine &engine) {
     spawn(engine, b, workers[w], w, W, (uint64_t)w);
   }
 
+  // determinism proof (tools/determinism.sh): per-run event-log hashes
+  FILE *hashlog = nullptr;
+  if (const char *hl = getenv("VERIF_HASHLOG"))
+    hashlog = fopen(hl, "w");
   uint64_t evaluations = 0;
   std::unordered_set< uint64_t > hashes, nontrivial_hashes;
   std::map< std::string, long long > stats_sum;
@@ -704,6 +708,10 @@ int check_main(int argc, char **argv, Engine &engine) {
       if (idx > max_index_done)
         max_index_done = idx;
       hashes.insert(o.hash);
+      if (hashlog)
+        fprintf(hashlog, "%llu %llu %s\n", (unsigned long long)idx,
+                (unsigned long long)o.hash,
+                o.vclass.empty() ? "-" : o.vclass.c_str());
       if (o.nontrivial)
         nontrivial_hashes.insert(o.hash);
       for (auto &kv : o.stats.o) {
@@ -827,6 +835,8 @@ int check_main(int argc, char **argv, Engine &engine) {
       }
     }
   }
+  if (hashlog)
+    fclose(hashlog);
   const double t_batch = wall_now() - t0;
 
   // ---------------------------------------------------------- violations ---
